@@ -161,10 +161,66 @@ def job_pullfail(payload):
     return out
 
 
+def job_dwapi(payload):
+    """Fallible calls of libzwerg-dw.h: opening things that are not (usable) DWARF files, and querying what does open.
+    The driver's wrapper records for every call whether NULL/false came with an error object (and a message) and vice versa."""
+    seed, = payload
+    d = common.get_driver()
+    rng = random.Random(seed)
+    out = {"dwapi_calls": 0, "dwapi_open_failed": 0, "dwapi_queries": 0, "bad": [], "n": 0, "rejected": 0, "accepted": 0, "runtime_errors": 0}
+    wd = os.path.join(common.RUN, "C14", "dwapi-%d" % seed)
+    os.makedirs(wd, exist_ok=True)
+    tdir = os.path.join(common.REPO, "tests")
+    good = [os.path.join(tdir, f) for f in ("typedef.o", "a1.out", "dwz-partial", "bitcount.o") if os.path.exists(os.path.join(tdir, f))]
+    cases = [os.path.join(wd, "does-not-exist"), wd, "/dev/null", "", os.path.join(tdir, "typedef.c") if os.path.exists(os.path.join(tdir, "typedef.c")) else "/etc/hostname"]
+    def mk(name, data):
+        p = os.path.join(wd, name)
+        with open(p, "wb") as f:
+            f.write(data)
+        cases.append(p)
+    mk("empty", b"")
+    mk("text", b"not an ELF file\n" * 10)
+    mk("magic-only", b"\x7fELF")
+    src = open(good[0], "rb").read()
+    for n in (16, 52, 64, 65, 200, len(src) // 2, len(src) - 1):
+        mk("trunc-%d" % n, src[:n])
+    mk("ar", b"!<arch>\n" + b" " * 60)
+    # an ELF file without any DWARF
+    from vf import dwgen
+    mk("nodwarf.o", dwgen.build_elf(64, False, 62, [], [(b"f", 0x10, 4, 0x12, 0, 1)]))
+    cases += good
+    rng.shuffle(cases)
+    for path in cases:
+        for raw in ("0", "1"):
+            try:
+                r = d.req("open id=x path=%s raw=%s" % (common.hx(path), raw), timeout=60)
+                out["dwapi_calls"] += 1; out["n"] += 1
+                if r.get("evbad"):
+                    out["bad"].append(("api-contract", dict(call="zw_value_init_dwarf", path=os.path.basename(path), ev=r["ev"])))
+                if r["st"] != "ok":
+                    out["dwapi_open_failed"] += 1
+                    if not r.get("msg"):
+                        out["bad"].append(("open-failed-without-message", dict(path=os.path.basename(path))))
+                    continue
+                for q in ("entry", "unit", "symbol", "entry attribute value", "abbrev entry", "symbol label", "entry @AT_decl_file", "name"):
+                    rr = d.run(q, inp="v:x", fuel=400000, max=20000, timeout=120)
+                    out["dwapi_queries"] += 1
+                    if rr.get("evbad"):
+                        out["bad"].append(("api-contract", dict(query=q, path=os.path.basename(path), ev=rr["ev"])))
+                    if rr["st"] == "error" and not rr.get("msg"):
+                        out["bad"].append(("run-time failure without message", dict(query=q, path=os.path.basename(path))))
+                d.req("close id=x")
+            except common.DriverCrash as ex:
+                out["bad"].append(("crash:" + getattr(ex, "key", ex.kind), dict(path=os.path.basename(path), request=ex.request[:200], report=ex.report[-3000:])))
+            except common.DriverTimeout as ex:
+                out["bad"].append(("hang", dict(path=os.path.basename(path), request=ex.request[:200])))
+    return out
+
+
 def job_cli(payload):
     seed, texts = payload
     d = common.get_driver()
-    exe = os.path.join(common.VERIF, "build", "asan", "dwgrep", "dwgrep")
+    exe = os.path.join(common.VERIF, "build", common.VARIANT, "dwgrep", "dwgrep")
     env = dict(os.environ); env.update(common.ASAN_ENV); env["DWGREP_VERIF_FUEL"] = "20000"
     rng = random.Random(seed)
     out = {"cli": 0, "cli_status2": 0, "bad": []}
@@ -225,13 +281,18 @@ def run(chk):
     tot, ctx, samples = {}, {}, []
     zcheck.consume(chk, pool.map(job, jobs), tot, ctx, samples, "C14")
     zcheck.consume(chk, pool.map(job_pullfail, [(chk.seed + i, 100) for i in range(8 if quick else 80)]), tot, ctx, samples, "C14 pull failures")
+    zcheck.consume(chk, pool.map(job_dwapi, [(chk.seed * 13 + i,) for i in range(4 if quick else 40)]), tot, ctx, samples, "C14 dwarf api")
     cli_texts = rng.sample(fixed, 350 if quick else 3000)
     for i in range(200 if quick else 4000):
         g = zgen.Gen(rng, maxdepth=2)
         cli_texts.append(mutate_bytes(zast.text(g.program([])).encode("latin-1")[:200], rng) if i % 2 else zast.text(g.program([])).encode("latin-1"))
     zcheck.consume(chk, pool.map(job_cli, [(chk.seed + i, cli_texts[i:i + 25]) for i in range(0, len(cli_texts), 25)]), tot, ctx, samples, "C14 cli")
+    hs = pool.hook_stats()
     pool.finish()
     chk.cov.update({
+        "fallible_dwarf_api_calls_on_bad_and_good_files": tot.get("dwapi_calls", 0), "of_which_refused_with_error": tot.get("dwapi_open_failed", 0),
+        "queries_on_values_opened_that_way": tot.get("dwapi_queries", 0),
+        "values_read_through_public_accessors_and_compared_with_internals": hs.get("api_accessor_reads"),
         "evaluations": tot.get("n", 0) + tot.get("cli", 0),
         "distinct_nontrivial": tot.get("rejected", 0),
         "rule": "one evaluation = one byte string handed to zw_query_parse_len (and executed with a step budget when accepted) or to the CLI; "
